@@ -15,9 +15,32 @@ type writeSet struct {
 	all   bool
 	keys  map[string]bool
 	cells map[*ssa.Alloc]bool
+	// granular writes through loop-invariant slices / pointers: key -> SSA values
+	regions map[string][]ssa.Value
+	objects map[string][]ssa.Value
+	loop    *loopInfo // when analysing a loop body: values defined outside are loop invariant
 }
 
-func newWriteSet() *writeSet { return &writeSet{keys: map[string]bool{}, cells: map[*ssa.Alloc]bool{}} }
+func newWriteSet() *writeSet {
+	return &writeSet{keys: map[string]bool{}, cells: map[*ssa.Alloc]bool{}, regions: map[string][]ssa.Value{}, objects: map[string][]ssa.Value{}}
+}
+
+// invariantIn reports whether v is defined outside the loop being analysed.
+func (w *writeSet) invariantIn(v ssa.Value) bool {
+	if w.loop == nil {
+		return false
+	}
+	switch u := v.(type) {
+	case *ssa.Parameter, *ssa.Const, *ssa.Global, *ssa.FreeVar:
+		return true
+	case ssa.Instruction:
+		if u.Block() == nil {
+			return false
+		}
+		return !w.loop.body[u.Block().Index]
+	}
+	return false
+}
 func (w *writeSet) union(o *writeSet) {
 	if o.all {
 		w.all = true
@@ -27,6 +50,12 @@ func (w *writeSet) union(o *writeSet) {
 	}
 	for c := range o.cells {
 		w.cells[c] = true
+	}
+	for k, vs := range o.regions {
+		w.regions[k] = append(w.regions[k], vs...)
+	}
+	for k, vs := range o.objects {
+		w.objects[k] = append(w.objects[k], vs...)
 	}
 }
 
@@ -42,7 +71,7 @@ func (x *Exec) addrRoot(v ssa.Value, w *writeSet) {
 		if fv, ok := u.X.(*ssa.FreeVar); ok {
 			_ = fv
 		}
-		pt, ok := types.Unalias(u.X.Type()).Underlying().(*types.Pointer)
+		pt, ok := under(u.X.Type()).(*types.Pointer)
 		if !ok {
 			w.all = true
 			return
@@ -53,15 +82,22 @@ func (x *Exec) addrRoot(v ssa.Value, w *writeSet) {
 			return
 		}
 		k, _ := x.fieldKey(si, u.Field)
-		w.keys[k] = true
-		// the pointer may also be a static location (cell) passed in: callers handle that
+		if w.invariantIn(u.X) {
+			w.objects[k] = append(w.objects[k], u.X)
+		} else {
+			w.keys[k] = true
+		}
 	case *ssa.IndexAddr:
-		switch bt := types.Unalias(u.X.Type()).Underlying().(type) {
+		switch bt := under(u.X.Type()).(type) {
 		case *types.Slice:
 			k, _ := x.elemKey(bt.Elem())
-			w.keys[k] = true
+			if w.invariantIn(u.X) {
+				w.regions[k] = append(w.regions[k], u.X)
+			} else {
+				w.keys[k] = true
+			}
 		case *types.Pointer:
-			if at, ok := types.Unalias(bt.Elem()).Underlying().(*types.Array); ok {
+			if at, ok := under(bt.Elem()).(*types.Array); ok {
 				k, _ := x.elemKey(at.Elem())
 				w.keys[k] = true
 			} else {
@@ -85,7 +121,7 @@ func (x *Exec) addrRoot(v ssa.Value, w *writeSet) {
 		w.keys["FREEVAR:"+u.Name()] = true
 	default:
 		// plain pointer value
-		pt, ok := types.Unalias(v.Type()).Underlying().(*types.Pointer)
+		pt, ok := under(v.Type()).(*types.Pointer)
 		if !ok {
 			w.all = true
 			return
@@ -107,7 +143,7 @@ func (x *Exec) instrWrites(in ssa.Instruction, w *writeSet, depth int) {
 	case *ssa.Store:
 		x.addrRoot(t.Addr, w)
 	case *ssa.MapUpdate:
-		mt := types.Unalias(t.Map.Type()).Underlying().(*types.Map)
+		mt := under(t.Map.Type()).(*types.Map)
 		dk, _, vk, _ := x.mapKeys(mt)
 		w.keys[dk] = true
 		w.keys[vk] = true
@@ -135,12 +171,12 @@ func (x *Exec) callWrites(c *ssa.CallCommon, w *writeSet, depth int) {
 	if b, ok := c.Value.(*ssa.Builtin); ok {
 		switch b.Name() {
 		case "append", "copy":
-			if st, ok := types.Unalias(c.Args[0].Type()).Underlying().(*types.Slice); ok {
+			if st, ok := under(c.Args[0].Type()).(*types.Slice); ok {
 				k, _ := x.elemKey(st.Elem())
 				w.keys[k] = true
 			}
 		case "delete":
-			mt := types.Unalias(c.Args[0].Type()).Underlying().(*types.Map)
+			mt := under(c.Args[0].Type()).(*types.Map)
 			dk, _, _, _ := x.mapKeys(mt)
 			w.keys[dk] = true
 		}
@@ -148,6 +184,9 @@ func (x *Exec) callWrites(c *ssa.CallCommon, w *writeSet, depth int) {
 	}
 	if c.IsInvoke() {
 		key := x.ifaceKey(c)
+		if _, ok := types.Unalias(c.Value.Type()).(*types.TypeParam); ok {
+			return // methods of type parameters are modelled as pure functions of the receiver
+		}
 		if fc := x.eng.cs.Funcs[key]; fc != nil {
 			x.contractWrites(fc, w)
 			return
@@ -228,6 +267,7 @@ func (x *Exec) contractWrites(fc *FuncContract, w *writeSet) {
 
 func (x *Exec) loopWrites(fr *Frame, li *loopInfo) *writeSet {
 	w := newWriteSet()
+	w.loop = li
 	var idx []int
 	for b := range li.body {
 		idx = append(idx, b)
@@ -259,6 +299,45 @@ func (x *Exec) havoc(fr *Frame, st *State, w *writeSet) {
 			continue
 		}
 		st.heap[k] = x.sc.freshConst("hv_"+k, srt)
+	}
+	var rks []string
+	for k := range w.regions {
+		rks = append(rks, k)
+	}
+	sort.Strings(rks)
+	for _, k := range rks {
+		if w.keys[k] || w.all {
+			continue
+		}
+		srt := x.heapSort[k]
+		h := x.heapGet(st, k, srt)
+		inner := srt[len("(Array Int ") : len(srt)-1]
+		for _, sv := range w.regions[k] {
+			v := x.val(fr, sv)
+			h = store(h, app("s_reg", v.S), x.sc.freshConst("hv_reg", inner))
+		}
+		st.heap[k] = x.name("h", srt, h)
+	}
+	var oks []string
+	for k := range w.objects {
+		oks = append(oks, k)
+	}
+	sort.Strings(oks)
+	for _, k := range oks {
+		if w.keys[k] || w.all {
+			continue
+		}
+		srt := x.heapSort[k]
+		h := x.heapGet(st, k, srt)
+		inner := srt[len("(Array Int ") : len(srt)-1]
+		for _, pv := range w.objects[k] {
+			v := x.val(fr, pv)
+			if v.S == "" {
+				continue // static location: its cell is havocked through w.cells
+			}
+			h = store(h, v.S, x.sc.freshConst("hv_obj", inner))
+		}
+		st.heap[k] = x.name("h", srt, h)
 	}
 	for a := range w.cells {
 		if l, ok := fr.cells[a]; ok {
@@ -441,6 +520,7 @@ func (x *Exec) loopBack(fr *Frame, from, to *ssa.BasicBlock, cond Term, st *Stat
 // ---------------- environments for contract expressions ----------------
 
 type Env struct {
+	inOld            bool
 	freshLo, freshHi Term
 	vars   map[string]Val
 	cur    *State
